@@ -2,15 +2,22 @@
 // Glb.Lib.CounterFacts.fact.
 //
 // C05_ids_unique has the hypothesis "the counter has not wrapped: ticket < 2^64".  Behaviour cannot show the width of
-// the counter (2^32 requests are out of reach), so it is read from the source: the declared type of Mux.storeID, the
-// shape of the expression whose value strconv.AppendUint renders into Store.id inside ServeHTTP, and every other use
-// of the field in package httpd.  Only go/ast: anything that is not one of the two recognised shapes
+// the counter (2^32 requests are out of reach), so it is read from the source.  Only go/ast, no type information.
 //
-//	atomic.AddUint64(&mux.storeID, 1)   with   storeID uint64                 (atomic = "sync/atomic")
-//	mux.storeID.Add(1)                  with   storeID atomic.Uint64
+// What is looked for (names are NOT hard-coded except the type Mux and its method ServeHTTP):
 //
-// is printed verbatim with shape "other" and the Coq-side check fails (conversion to a narrower type, %, &, a local
-// variable in between, a second increment ... are all "other").
+//   - the functions and methods of package httpd reachable from (*Mux).ServeHTTP through same-package calls;
+//   - in them, every RENDERING of a number: strconv.AppendUint(buf, V, base) or strconv.FormatUint(V, base), whose V is
+//     counter-related, i.e. mentions an integer or sync/atomic field of Mux, a sync/atomic function, or a local assigned
+//     from such an expression;
+//   - V must be an INCREMENT   atomic.AddUint64(&x.f, d)   or   x.f.Add(d)   with f a field of Mux, possibly wrapped in
+//     uint64(...), or ONE local variable that is defined exactly once, by `v := INCREMENT` / `var v [uint64] = INCREMENT`,
+//     and never assigned, incremented or address-taken again;
+//   - the declared type of f, and every other mention of x.f in the package.
+//
+// Anything else about a counter-related V — a conversion to another type, %, &, >>, arithmetic, a plain read of the
+// field, a parameter, a local assigned twice — is reported with shape "other" and the Coq-side check fails.  The base
+// of the rendering is reported but is not a width matter (the dynamic check sees it).
 package main
 
 import (
@@ -22,14 +29,44 @@ import (
 	"go/token"
 	"os"
 	"path/filepath"
+	"sort"
 	"strings"
 )
+
+type fact struct {
+	FieldType  string // declared type of the counter field, package names resolved to import paths ("?" if no counter was identified)
+	Shape      string // AddUint64 | MethodAdd | other | none
+	Delta      string
+	Base       string
+	Renderings int // counter-related renderings reachable from ServeHTTP
+	Uses       int // mentions x.<field> in the package
+	Field      string
+	Rendered   []string // the V expressions, verbatim
+	ViaLocal   bool
+	Reachable  []string
+}
+
+func (f fact) coq() string {
+	return fmt.Sprintf("{| cf_field_type := %s; cf_shape := %s; cf_delta := %s; cf_base := %s; cf_renderings := %d; cf_uses := %d |}",
+		coqStr(f.FieldType), coqStr(f.Shape), coqStr(f.Delta), coqStr(f.Base), f.Renderings, f.Uses)
+}
+
+func (f fact) comment() string {
+	via := ""
+	if f.ViaLocal {
+		via = " (through one local variable)"
+	}
+	return fmt.Sprintf("(* counter field Mux.%s %s; rendered%s: %s; mentions of the field in package httpd: %d; functions reachable from ServeHTTP: %s *)",
+		f.Field, f.FieldType, via, strings.Join(f.Rendered, " ; "), f.Uses, strings.Join(f.Reachable, ","))
+}
 
 func show(fset *token.FileSet, n ast.Node) string {
 	var b bytes.Buffer
 	printer.Fprint(&b, fset, n)
 	return strings.Join(strings.Fields(b.String()), " ")
 }
+
+func coqStr(s string) string { return "\"" + strings.ReplaceAll(s, "\"", "\"\"") + "\"" }
 
 // pkgPath: the import path the identifier stands for in file f ("" if it is not an imported package name)
 func pkgPath(f *ast.File, ident string) string {
@@ -58,7 +95,286 @@ func qualified(fset *token.FileSet, f *ast.File, e ast.Expr) string {
 	return show(fset, e)
 }
 
-func coqStr(s string) string { return "\"" + strings.ReplaceAll(s, "\"", "\"\"") + "\"" }
+type fn struct {
+	decl *ast.FuncDecl
+	file *ast.File
+}
+
+type analysis struct {
+	fset   *token.FileSet
+	files  []*ast.File
+	fields map[string]string // Mux field -> qualified type
+	funcs  map[string][]fn   // name -> declarations (functions and methods of any receiver)
+}
+
+// increment: is e  atomic.AddUint64(&x.f, d)  or  x.f.Add(d)  with f a Mux field?
+func (a *analysis) increment(file *ast.File, e ast.Expr) (field, shape, delta string, ok bool) {
+	call, isCall := e.(*ast.CallExpr)
+	if !isCall {
+		return
+	}
+	if qualified(a.fset, file, call.Fun) == "sync/atomic.AddUint64" && len(call.Args) == 2 {
+		if u, isU := call.Args[0].(*ast.UnaryExpr); isU && u.Op == token.AND {
+			if s, isS := u.X.(*ast.SelectorExpr); isS {
+				if _, isF := a.fields[s.Sel.Name]; isF {
+					return s.Sel.Name, "AddUint64", show(a.fset, call.Args[1]), true
+				}
+			}
+		}
+		return
+	}
+	if s, isS := call.Fun.(*ast.SelectorExpr); isS && s.Sel.Name == "Add" && len(call.Args) == 1 {
+		if inner, isS2 := s.X.(*ast.SelectorExpr); isS2 {
+			if _, isF := a.fields[inner.Sel.Name]; isF {
+				return inner.Sel.Name, "MethodAdd", show(a.fset, call.Args[0]), true
+			}
+		}
+	}
+	return
+}
+
+// local: the expressions assigned to an identifier of a function, and whether it is "disturbed"
+// (assigned with =, op=, ++/--, address taken, declared with a type other than uint64, range target)
+type local struct {
+	rhs       []ast.Expr
+	disturbed bool
+}
+
+func locals(d *ast.FuncDecl) map[string]*local {
+	res := map[string]*local{}
+	get := func(n string) *local {
+		if res[n] == nil {
+			res[n] = &local{}
+		}
+		return res[n]
+	}
+	ast.Inspect(d.Body, func(n ast.Node) bool {
+		switch x := n.(type) {
+		case *ast.AssignStmt:
+			for i, l := range x.Lhs {
+				id, ok := l.(*ast.Ident)
+				if !ok {
+					continue
+				}
+				lc := get(id.Name)
+				if x.Tok == token.DEFINE && len(x.Lhs) == len(x.Rhs) {
+					lc.rhs = append(lc.rhs, x.Rhs[i])
+				} else {
+					lc.disturbed = true
+					if len(x.Lhs) == len(x.Rhs) {
+						lc.rhs = append(lc.rhs, x.Rhs[i])
+					}
+				}
+			}
+		case *ast.ValueSpec:
+			for i, id := range x.Names {
+				lc := get(id.Name)
+				if x.Type != nil {
+					if t, ok := x.Type.(*ast.Ident); !ok || t.Name != "uint64" {
+						lc.disturbed = true
+					}
+				}
+				if len(x.Values) == len(x.Names) {
+					lc.rhs = append(lc.rhs, x.Values[i])
+				} else {
+					lc.disturbed = true // declared without a value: assigned later
+				}
+			}
+		case *ast.IncDecStmt:
+			if id, ok := x.X.(*ast.Ident); ok {
+				get(id.Name).disturbed = true
+			}
+		case *ast.UnaryExpr:
+			if id, ok := x.X.(*ast.Ident); ok && x.Op == token.AND {
+				get(id.Name).disturbed = true
+			}
+		case *ast.RangeStmt:
+			for _, e := range []ast.Expr{x.Key, x.Value} {
+				if id, ok := e.(*ast.Ident); ok {
+					get(id.Name).disturbed = true
+				}
+			}
+		}
+		return true
+	})
+	return res
+}
+
+// numeric: could a field of this declared type be a counter?  (integers and everything of sync/atomic)
+func numeric(t string) bool {
+	switch t {
+	case "int", "int8", "int16", "int32", "int64", "uint", "uint8", "uint16", "uint32", "uint64", "uintptr", "byte":
+		return true
+	}
+	return strings.HasPrefix(t, "sync/atomic.")
+}
+
+// related: does e mention an integer / atomic Mux field, a sync/atomic function, or a local assigned from a related expression?
+func (a *analysis) related(file *ast.File, loc map[string]*local, e ast.Expr, depth int) bool {
+	found := false
+	ast.Inspect(e, func(n ast.Node) bool {
+		if found {
+			return false
+		}
+		switch x := n.(type) {
+		case *ast.SelectorExpr:
+			if t, ok := a.fields[x.Sel.Name]; ok && numeric(t) {
+				if id, isID := x.X.(*ast.Ident); !isID || pkgPath(file, id.Name) == "" {
+					found = true
+				}
+			}
+			if strings.HasPrefix(qualified(a.fset, file, x), "sync/atomic.") {
+				found = true
+			}
+		case *ast.Ident:
+			if lc := loc[x.Name]; lc != nil && depth < 4 {
+				for _, r := range lc.rhs {
+					if a.related(file, loc, r, depth+1) {
+						found = true
+					}
+				}
+			}
+		}
+		return true
+	})
+	return found
+}
+
+func unwrapUint64(e ast.Expr) ast.Expr {
+	for {
+		switch x := e.(type) {
+		case *ast.ParenExpr:
+			e = x.X
+			continue
+		case *ast.CallExpr:
+			if id, ok := x.Fun.(*ast.Ident); ok && id.Name == "uint64" && len(x.Args) == 1 {
+				e = x.Args[0]
+				continue
+			}
+		}
+		return e
+	}
+}
+
+func analyze(fset *token.FileSet, files []*ast.File) fact {
+	a := &analysis{fset: fset, files: files, fields: map[string]string{}, funcs: map[string][]fn{}}
+	for _, f := range files {
+		for _, d := range f.Decls {
+			switch x := d.(type) {
+			case *ast.GenDecl:
+				for _, sp := range x.Specs {
+					if ts, ok := sp.(*ast.TypeSpec); ok && ts.Name.Name == "Mux" {
+						if st, ok := ts.Type.(*ast.StructType); ok {
+							for _, fl := range st.Fields.List {
+								for _, nm := range fl.Names {
+									a.fields[nm.Name] = qualified(fset, f, fl.Type)
+								}
+							}
+						}
+					}
+				}
+			case *ast.FuncDecl:
+				if x.Body != nil {
+					a.funcs[x.Name.Name] = append(a.funcs[x.Name.Name], fn{x, f})
+				}
+			}
+		}
+	}
+	res := fact{FieldType: "?", Shape: "none", Delta: "?", Base: "?"}
+	// functions reachable from (*Mux).ServeHTTP through same-package calls (by name)
+	seen := map[string]bool{}
+	var queue []string
+	for _, d := range a.funcs["ServeHTTP"] {
+		if d.decl.Recv != nil && strings.Contains(show(fset, d.decl.Recv.List[0].Type), "Mux") {
+			seen["ServeHTTP"] = true
+			queue = append(queue, "ServeHTTP")
+		}
+	}
+	for len(queue) > 0 {
+		name := queue[0]
+		queue = queue[1:]
+		for _, d := range a.funcs[name] {
+			ast.Inspect(d.decl.Body, func(n ast.Node) bool {
+				if c, ok := n.(*ast.CallExpr); ok {
+					callee := ""
+					switch f := c.Fun.(type) {
+					case *ast.Ident:
+						callee = f.Name
+					case *ast.SelectorExpr:
+						if id, isID := f.X.(*ast.Ident); !isID || pkgPath(d.file, id.Name) == "" {
+							callee = f.Sel.Name
+						}
+					}
+					if callee != "" && a.funcs[callee] != nil && !seen[callee] {
+						seen[callee] = true
+						queue = append(queue, callee)
+					}
+				}
+				return true
+			})
+		}
+	}
+	for n := range seen {
+		res.Reachable = append(res.Reachable, n)
+	}
+	sort.Strings(res.Reachable)
+	// renderings
+	for _, name := range res.Reachable {
+		for _, d := range a.funcs[name] {
+			loc := locals(d.decl)
+			ast.Inspect(d.decl.Body, func(n ast.Node) bool {
+				c, ok := n.(*ast.CallExpr)
+				if !ok {
+					return true
+				}
+				var v, base ast.Expr
+				switch q := qualified(fset, d.file, c.Fun); {
+				case q == "strconv.AppendUint" && len(c.Args) == 3:
+					v, base = c.Args[1], c.Args[2]
+				case q == "strconv.FormatUint" && len(c.Args) == 2:
+					v, base = c.Args[0], c.Args[1]
+				default:
+					return true
+				}
+				if !a.related(d.file, loc, v, 0) {
+					return true // a number that has nothing to do with the Mux (a status code, a length ...)
+				}
+				res.Renderings++
+				res.Rendered = append(res.Rendered, show(fset, v))
+				res.Base = show(fset, base)
+				res.Shape = "other"
+				inner := unwrapUint64(v)
+				if id, isID := inner.(*ast.Ident); isID {
+					lc := loc[id.Name]
+					if lc == nil || lc.disturbed || len(lc.rhs) != 1 {
+						return true
+					}
+					inner = unwrapUint64(lc.rhs[0])
+					res.ViaLocal = true
+					res.Rendered[len(res.Rendered)-1] += " where " + id.Name + " := " + show(fset, lc.rhs[0])
+				}
+				if field, shape, delta, isInc := a.increment(d.file, inner); isInc {
+					res.Field, res.Shape, res.Delta, res.FieldType = field, shape, delta, a.fields[field]
+				}
+				return true
+			})
+		}
+	}
+	// every mention x.<field> in the package (the increment itself is one)
+	if res.Field != "" {
+		for _, f := range files {
+			ast.Inspect(f, func(n ast.Node) bool {
+				if s, ok := n.(*ast.SelectorExpr); ok && s.Sel.Name == res.Field {
+					if id, isID := s.X.(*ast.Ident); !isID || pkgPath(f, id.Name) == "" {
+						res.Uses++
+					}
+				}
+				return true
+			})
+		}
+	}
+	return res
+}
 
 func main() {
 	if len(os.Args) != 2 {
@@ -72,60 +388,16 @@ func main() {
 		fmt.Fprintln(os.Stderr, "c05counter: cannot parse", dir, err)
 		os.Exit(1)
 	}
-	const field = "storeID"
-	fieldType := "?"
-	uses := 0 // selector expressions x.storeID anywhere in the package
-	var rendered []string
-	shape, delta, base := "none", "?", "?"
-	for _, f := range pkgs["httpd"].Files {
-		ast.Inspect(f, func(n ast.Node) bool {
-			switch x := n.(type) {
-			case *ast.TypeSpec:
-				if st, ok := x.Type.(*ast.StructType); ok && x.Name.Name == "Mux" {
-					for _, fl := range st.Fields.List {
-						for _, nm := range fl.Names {
-							if nm.Name == field {
-								fieldType = qualified(fset, f, fl.Type)
-							}
-						}
-					}
-				}
-			case *ast.SelectorExpr:
-				if x.Sel.Name == field {
-					uses++
-				}
-			case *ast.FuncDecl:
-				if x.Name.Name != "ServeHTTP" || x.Recv == nil || x.Body == nil {
-					return true
-				}
-				ast.Inspect(x.Body, func(m ast.Node) bool {
-					c, ok := m.(*ast.CallExpr)
-					if !ok {
-						return true
-					}
-					if s, ok := c.Fun.(*ast.SelectorExpr); ok && s.Sel.Name == "AppendUint" && qualified(fset, f, c.Fun) == "strconv.AppendUint" && len(c.Args) == 3 {
-						v := c.Args[1]
-						rendered = append(rendered, show(fset, v))
-						base = show(fset, c.Args[2])
-						shape = "other"
-						if call, ok := v.(*ast.CallExpr); ok && len(call.Args) >= 1 {
-							fn := qualified(fset, f, call.Fun)
-							switch {
-							case fn == "sync/atomic.AddUint64" && len(call.Args) == 2 && strings.HasPrefix(show(fset, call.Args[0]), "&") && strings.HasSuffix(show(fset, call.Args[0]), "."+field):
-								shape, delta = "AddUint64", show(fset, call.Args[1])
-							case strings.HasSuffix(fn, "."+field+".Add") && len(call.Args) == 1:
-								shape, delta = "MethodAdd", show(fset, call.Args[0])
-							}
-						}
-					}
-					return true
-				})
-			}
-			return true
-		})
+	var names []string
+	for n := range pkgs["httpd"].Files {
+		names = append(names, n)
 	}
-	fmt.Printf("{| cf_field_type := %s; cf_shape := %s; cf_delta := %s; cf_base := %s; cf_renderings := %d; cf_uses := %d |}\n",
-		coqStr(fieldType), coqStr(shape), coqStr(delta), coqStr(base), len(rendered), uses)
-	fmt.Printf("(* Mux.%s %s; rendered into Store.id in ServeHTTP: %s; selector uses of the field in package httpd: %d *)\n",
-		field, fieldType, strings.Join(rendered, " ; "), uses)
+	sort.Strings(names)
+	var files []*ast.File
+	for _, n := range names {
+		files = append(files, pkgs["httpd"].Files[n])
+	}
+	f := analyze(fset, files)
+	fmt.Println(f.coq())
+	fmt.Println(f.comment())
 }
